@@ -188,13 +188,28 @@ def gen_cam(rng):
     else:
         i = rng.choice(cands)
         cl = layers[i - 1]["name"] if r < 0.55 else i if r < 0.78 else i - total
-    return dict(stream="cam", method=rng.choice(["GradCAM", "GradCAMPP"]), shape=shape, layers=layers, conv_layer=cl,
-                xs=[grid(rng, dim) for _ in range(n)], ts=gen_targets(rng, n, ncls), bs=gen_bs(rng, n))
+    case = dict(stream="cam", method=rng.choice(["GradCAM", "GradCAMPP"]), shape=shape, layers=layers, conv_layer=cl,
+                output_layer=None, xs=[grid(rng, dim) for _ in range(n)], ts=gen_targets(rng, n, ncls), bs=gen_bs(rng, n))
+    # combine with output_layer: the explained model is truncated at layers[-2], the conv layer is still chosen in the
+    # USER's model (a negative conv_layer index counts from the end of the full model)
+    if total - 2 > max(cands) and len(shp[total - 2]) == 1 and rng.random() < 0.45:
+        case["output_layer"] = rng.choice([-2, layers[total - 3]["name"]])
+        case["ts"] = gen_targets(rng, n, shp[total - 2][0])
+    return case
 
 
 def generate(rng, tier):
     nb, ns, nc = (70, 5, 60) if tier == "quick" else (700, 60, 600)
     return [gen_bp(rng) for _ in range(nb)] + [gen_bp(rng, True) for _ in range(ns)] + [gen_cam(rng) for _ in range(nc)]
+
+
+def explained(case):
+    """the case whose net is the model the explainer must explain (truncated at output_layer when given)"""
+    if case.get("output_layer") is None:
+        return case
+    c = dict(case)
+    c["layers"] = case["layers"][:-1]
+    return c
 
 
 def chosen_index(case):
@@ -300,7 +315,13 @@ def rows(a, n):
 def run_impl(case):
     import tensorflow as tf
     import xplique.attributions as xa
-    model = build_keras(case)
+    full_model = build_keras(case)
+    ol = case.get("output_layer")
+    if ol is None:
+        model = full_model
+    else:
+        import keras as _k
+        model = _k.Model(full_model.input, full_model.layers[-2].output)     # the model the explainer must explain
     n = len(case["xs"])
     xs = np.array(case["xs"], np.float32).reshape([n] + case["shape"])
     ts = np.array(case["ts"], np.float32)
@@ -317,7 +338,8 @@ def run_impl(case):
         res["clone_out"] = rows(expl.model(xs), n)
         res["clone_distinct"] = expl.model is not model
     else:
-        expl = getattr(xa, case["method"])(model, batch_size=case["bs"], conv_layer=case["conv_layer"])
+        kw = {} if ol is None else dict(output_layer=ol)
+        expl = getattr(xa, case["method"])(full_model, batch_size=case["bs"], conv_layer=case["conv_layer"], **kw)
         out = np.asarray(expl.explain(xs, ts))
         if list(out.shape) != [n] + case["shape"][:2] + [1]:
             raise AssertionError(f"explain returned shape {out.shape}")
@@ -326,7 +348,7 @@ def run_impl(case):
         # guard of the Grad-CAM++ division (harness-side, plain TensorFlow on the user's model)
         idx = chosen_index(case)
         import keras
-        two = keras.Model(model.input, [model.layers[idx].output, model.output])
+        two = keras.Model(full_model.input, [full_model.layers[idx].output, model.output])
         x = tf.constant(xs)
         with tf.GradientTape() as tape:
             tape.watch(x)
@@ -416,6 +438,9 @@ def coq_bs(case):
 
 def coq_choice(case):
     cl = case["conv_layer"]
+    if case.get("output_layer") is not None:
+        # the layer is chosen in the USER's model; in the truncated net it keeps its (non-negative) index
+        return f"(Some (ByIndex ({chosen_index(case)})%Z))"
     if cl is None:
         return "None"
     if isinstance(cl, str):
@@ -456,7 +481,7 @@ def coq_term(case, res, faithful=False):
         if case["method"] == "GradCAMPP" and res["pp_margin"] < 1e-2:
             return None
         body = f"opt_close {TOL} {cam_model(case)} {core.cqlist2(res['maps'])} && {common}"
-    return f"(let net := {coq_net(case)} in {body})%bool"
+    return f"(let net := {coq_net(explained(case))} in {body})%bool"
 
 
 def classify_known(case, res, err, known):
@@ -485,7 +510,7 @@ def dump_term(case, res):
     else:
         body = (f"[match {cam_model(case)} with Some m => map (map qdump) m | None => [] end; "
                 f"map (map qdump) (map (forward net) {xs}); map (map qdump) (batch_gradient net None {xs} {ts})]")
-    return f"(let net := {coq_net(case)} in {body})"
+    return f"(let net := {coq_net(explained(case))} in {body})"
 
 
 def _diffs(model, impl, tol=0.0):
